@@ -73,7 +73,7 @@ def check_forwarder(ctx):
     ctx.check(rv is not None and rv == pv, "C17.fwd-peek-same-value", p.site, "Forwarder.peek.ret",
               found=f"read->{tstr(rv) if rv else None} peek->{tstr(pv) if pv else None}", required="peek returns what read returns")
     if rv is None:
-        raise AnalysisError("C17.fwd-bypass", r.site, "Forwarder.read returns nothing")
+        raise AnalysisError("C17.fwd-bypass", r.site, "Forwarder.read returns nothing", missing="Forwarder.read returns nothing")
     bt = decision_table(ex, rv, sync=False)
     check_table(ctx, "C17.fwd-bypass", comp.site, "Forwarder.read_value", bt, [
         (V, term_pred(data), "buffer full: the stored value is delivered (last writer)"),
